@@ -586,6 +586,11 @@ class MQTTProtocol(MQTTBaseProtocol):
         if self._version == v31:
             reply.encoded[0] |=  (dup << 3)   # set the dup flag
             reply.dup = dup
+        else:
+            # PUBREL has no DUP flag under 3.1.1: one set while the session
+            # was on a 3.1 connection must not survive
+            reply.encoded[0] &= 0xF7
+            reply.dup = False
         reply.alarm = self.callLater(reply.interval(), self._pubrelError, reply)
         log.debug("==> {packet:7} (id={reply.msgId:04x} dup={dup})", packet="PUBREL", reply=reply, dup=dup)
         self.transport.write(str(reply.encoded) if PY2 else bytes(reply.encoded))
